@@ -118,6 +118,37 @@ def run(prog, rep, tier='quick', config='default'):
                 conds.add('no-cost-base')
             if d.has_call(r'Affiliate::is_default$'):
                 conds.add('non-default-affiliate')
+    if not conds >= {'no-cost-base', 'non-default-affiliate'}:
+        # the decision made by a helper that answers `Ok(cost base)` or `Err(reason)`: the note is written on its Err answer, and its Ok
+        # answer carries the (present) cost base and is given only for the default affiliate
+        for nb in notes:
+            for (sbb, discr, vals, neg) in ps.conditions_at(nb):
+                dl = op_local(discr) if is_place(discr) else None
+                dd = ps.single_def(dl) if dl is not None else None
+                if not (dd and dd[2] == 'stmt' and dd[3]['r']['rv'] == 'discr'):
+                    continue
+                src = mir.provenance(ps, {'k': 'copy', 'pl': dd[3]['r']['pl']})
+                for hc in src.calls:
+                    h = prog.resolve(hc.callee, ps.crate)
+                    if h is None or not h.name.startswith(MOD.rsplit('::', 2)[0]) or not re.search(r'Result<|Option<', h.ty.get(0, '') or ''):
+                        continue
+                    oks = [(i, st) for i, b in h.blocks.items() for st in b['stmts'] if st['dst']['l'] == 0 and not st['dst']['p'] and
+                           st['r']['rv'] == 'agg' and (st['r']['kind'].endswith('Result::Ok') or st['r']['kind'].endswith('Option::Some'))]
+                    good = bool(oks)
+                    for (i, st) in oks:
+                        po = mir.provenance(h, st['r']['ops'][0], follow_all_call_args=True) if st['r']['ops'] and is_place(st['r']['ops'][0]) else None
+                        has_acb = po is not None and any(fl == 'total_acb' for of, fl in po.fields)
+                        dflt = False
+                        for (sb2, d2, v2, n2) in h.conditions_at(i):
+                            o2 = mir.provenance(h, d2, follow_all_call_args=True)
+                            if o2.has_call(r'Affiliate::is_default$'):
+                                flipped = (len({id(x_) for op_, x_ in list(o2.binops) + list(o2.unops) if op_ == 'Not'}) % 2 == 1)
+                                truth = (v2 != [0]) if v2 is not None else (0 in (n2 or []))
+                                if truth != flipped:
+                                    dflt = True
+                        good = good and has_acb and dflt
+                    if good:
+                        conds |= {'no-cost-base', 'non-default-affiliate'}
     if conds >= {'no-cost-base', 'non-default-affiliate'}:
         rep.ok('R17b', 'only-default-non-registered-affiliate-counts', fn=ps.name, detail='skips are conditioned on "no cost base" and on !affiliate.is_default()')
     else:
